@@ -13,6 +13,7 @@ import (
 	"fmt"
 	"os"
 	"runtime"
+	"strings"
 	"sync"
 	"sync/atomic"
 	"time"
@@ -92,7 +93,7 @@ func report(k kase, f *finding, witness any) {
 		run.Inconclusive("%s/%s #%d: %s", k.rig, k.family, k.index, f.msg)
 		return
 	}
-	if atomic.AddInt32(&findings, 1) >= 6 {
+	if !run.IsKnown(f.class) && atomic.AddInt32(&findings, 1) >= 6 {
 		atomic.StoreInt32(&stop, 1)
 	}
 	run.Violation(f.class, witness, "%s/%s case %d: %s", k.rig, k.family, k.index, f.msg)
@@ -170,6 +171,20 @@ func main() {
 	cases = append(cases, stormCases()...)
 	cases = append(cases, recvCases()...)
 	longs := longCases()
+	if only := os.Getenv("VERIF_C12_ONLY"); only != "" { // development aid: run one family
+		var cs, ls []kase
+		for _, k := range cases {
+			if strings.Contains(only, k.family) {
+				cs = append(cs, k)
+			}
+		}
+		for _, k := range longs {
+			if strings.Contains(only, k.family) {
+				ls = append(ls, k)
+			}
+		}
+		cases, longs = cs, ls
+	}
 
 	// the long histories run next to the short cases
 	var lw sync.WaitGroup
